@@ -3,7 +3,7 @@
 use crate::common::*;
 use cosmwasm_std::{coins, from_json, to_json_binary, Addr, Binary, Coin, Empty, Uint128};
 use cw4::{AdminResponse, HooksResponse, Member, MemberListResponse, MemberResponse, TotalWeightResponse};
-use cw_multi_test::{Contract, ContractWrapper, Executor};
+use cw_multi_test::{Contract, Executor};
 use cw_utils::Duration;
 use serde_json::{json, Value};
 
@@ -13,10 +13,10 @@ const OTH: &str = "uoth";
 const RICH: u128 = 1u128 << 110;
 
 fn group_code() -> Box<dyn Contract<Empty>> {
-    Recorded::new("cw4", Box::new(ContractWrapper::new(cw4_group::contract::execute, cw4_group::contract::instantiate, cw4_group::contract::query)))
+    Recorded::new("cw4", crate::contract_code!(cw4_group, has_reply_cw4_group, has_sudo_cw4_group, has_migrate_cw4_group))
 }
 fn stake_code() -> Box<dyn Contract<Empty>> {
-    Recorded::new("cw4", Box::new(ContractWrapper::new(cw4_stake::contract::execute, cw4_stake::contract::instantiate, cw4_stake::contract::query)))
+    Recorded::new("cw4", crate::contract_code!(cw4_stake, has_reply_cw4_stake, has_sudo_cw4_stake, has_migrate_cw4_stake))
 }
 
 pub struct Run {
@@ -90,7 +90,7 @@ impl Run {
                     router.bank.init_balance(storage, u, vec![Coin::new(RICH, STK), Coin::new(RICH, OTH)]).unwrap();
                 }
             });
-            let tok_id = w.app.store_code(crate::cw20::token_code());
+            let tok_id = w.app.store_code(crate::ics20::FlakyToken::boxed());
             let mk = |w: &mut World, name: &str| -> Addr {
                 let m = cw20_base::msg::InstantiateMsg {
                     name: "Stake Token".into(),
@@ -190,7 +190,13 @@ impl Run {
         let mut cursor: Option<String> = None;
         loop {
             // small pages on purpose: "the listed members" are what a client gets walking the listing
-            let r: MemberListResponse = w.smart(&self.c, &cw4_group::msg::QueryMsg::ListMembers { start_after: cursor.clone(), limit: Some(2) }).unwrap();
+            let r: MemberListResponse = match w.smart(&self.c, &cw4_group::msg::QueryMsg::ListMembers { start_after: cursor.clone(), limit: Some(2) }) {
+                Ok(r) => r,
+                Err(e) => {
+                    anom.push(format!("ListMembers cannot be walked: {e}"));
+                    break;
+                }
+            };
             if r.members.is_empty() {
                 break;
             }
@@ -235,6 +241,15 @@ impl Run {
         let r: CallOut = match act.as_str() {
             "advance" => {
                 self.w.advance(n(&args, "dh"), n(&args, "dt"));
+                noop()
+            }
+            "tokfail" | "sloppy" => {
+                // faults of the staked cw20 token: its Transfer (claim payout) fails / its Receive names the sender sloppily
+                if let Some(t) = self.tok.clone() {
+                    let on = args["on"].as_bool().unwrap_or(false);
+                    let m = if act == "tokfail" { json!({"on": on}) } else { json!({"sloppy": on}) };
+                    self.w.app.wasm_sudo(t, &m).unwrap();
+                }
                 noop()
             }
             "query" => {
@@ -458,7 +473,8 @@ pub fn random_run(rng: &mut Rng, run_no: u64, len: usize, out: &mut Out) {
             }
             35..=44 if run.stake => json!({"act":"claim","by":who,"args":{}}),
             35..=44 => json!({"act":"update_members","by":adm,"args":{"add":[{"a":who,"w":rng.range(0, top_w)}],"remove":[]}}),
-            45..=52 => json!({"act":"update_admin","by":adm,"args":{"new":rng.pick(&["ad","ad2","ad2","none"])}}),
+            45..=52 => json!({"act":"update_admin","by":adm,"args":{"new":rng.pick(&["ad","ad2","ad2","none","h1"])}}),
+            85..=91 if run.stake && run.cw20 => json!({"act": if rng.chance(1, 2) {"tokfail"} else {"sloppy"},"by":"env","args":{"on":rng.chance(2,3)}}),
             53..=62 => {
                 let h = *rng.pick(&["h1", "h2"]);
                 let by = if rng.chance(1, 6) { h.to_string() } else { adm.clone() };
